@@ -729,6 +729,58 @@ def extract(repo: str):
         [lean_list(["(" + lean_list([f".{c}" for c in cs]) + ", " + lean_str(nm) + ")" for cs, nm in b]) for b in blocks]))
     js["except"]["excStreamReadBlocks"] = [[[cs, nm] for cs, nm in b] for b in blocks]
 
+    # Persistence.start: which classes are caught AROUND the saver's `asyncio.sleep` and AROUND `await task` in
+    # cancel_save — located by what they protect, not by their position among the function's clauses, so that adding,
+    # removing or merging an unrelated clause does not make the lifecycle model read the wrong one.
+    def guards_around(fn, pred):
+        tree = fn_ast(getattr(fn, "__func__", fn))
+        parents = {}
+        for par in ast.walk(tree):
+            for fld, val in ast.iter_fields(par):
+                for ch in (val if isinstance(val, list) else [val]):
+                    if isinstance(ch, ast.AST):
+                        parents[ch] = (par, fld)
+        target = next((n for n in ast.walk(tree) if pred(n, tree)), None)
+        if target is None:
+            return None
+        out, cur = [], target
+        while cur in parents:
+            par, fld = parents[cur]
+            if isinstance(par, ast.Try) and fld == "body":
+                for h in par.handlers:
+                    out += handler_classes(h)
+            if isinstance(par, (ast.With, ast.AsyncWith)) and fld == "body":
+                for it in par.items:
+                    ce = it.context_expr
+                    if isinstance(ce, ast.Call) and (getattr(ce.func, "attr", None) == "suppress" or getattr(ce.func, "id", None) == "suppress"):
+                        for a in ce.args:
+                            out += handler_classes(ast.ExceptHandler(type=a))
+            if isinstance(par, (ast.FunctionDef, ast.AsyncFunctionDef)):
+                break
+            cur = par
+        return out
+
+    def is_sleep(n, _tree):
+        return (isinstance(n, ast.Await) and isinstance(n.value, ast.Call)
+                and (getattr(n.value.func, "attr", None) == "sleep" or getattr(n.value.func, "id", None) == "sleep"))
+
+    def is_await_cancelled_task(n, tree):
+        if not (isinstance(n, ast.Await) and isinstance(n.value, ast.Name)):
+            return False
+        return any(isinstance(c, ast.Call) and isinstance(c.func, ast.Attribute) and c.func.attr == "cancel"
+                   and isinstance(c.func.value, ast.Name) and c.func.value.id == n.value.id for c in ast.walk(tree))
+
+    start_tuples = js["except"]["excPersistStart"]
+    for name, pred, pos in (("excPersistStartSleep", is_sleep, 0), ("excPersistStartAwait", is_await_cancelled_task, 1)):
+        cs = guards_around(pers_mod.Persistence.start, pred)
+        if cs is None:  # the awaited thing was restructured beyond recognition: the positional reading as before
+            cs = start_tuples[pos] if pos < len(start_tuples) else []
+        for c in cs:
+            if c not in PYEXN:
+                raise ExtractError(f"{name}: exception class {c} outside the vocabulary")
+        emit(f"def {name} : List PyExn := " + lean_list([f".{c}" for c in cs]))
+        js["except"][name] = cs
+
     # subclass relation over the vocabulary, from the live classes
     import asyncio
     import marshmallow
